@@ -129,12 +129,26 @@ def tight_rejection(ctx, F, inst, A, label, size_t, base, elem, inner):
             o_ = G.strip(s.terms[0])
             if o_[0] == "checked" and o_[1] == "Sub":
                 facts.append(("cmp", "Lt", o_[2][0], o_[2][1]))
-        ok = G.entails(facts, ("cmp", "Lt", size_t, ("c", base))) is not None
-        if not ok and elem > 1:
-            ok = G.entails(facts, ("cmp", "Ne", ("bin", "Rem", inner, ("c", elem), "usize"), ("c", 0))) is not None
-        if not ok and s.kind == "divzero":
-            ok = False
-        if not ok:
+        from .. import exact as EX
+
+        def allowed(fs_):
+            # `max(a, b) != a` is `a < b` (and `min(a, b) != b` likewise): the bound test spelt `size.max(BASE) == size`
+            extra_ = []
+            for f_ in fs_:
+                if isinstance(f_, tuple) and len(f_) == 4 and f_[0] == "cmp" and f_[1] == "Ne":
+                    for (m_, o_) in ((f_[2], f_[3]), (f_[3], f_[2])):
+                        if isinstance(m_, tuple) and m_ and m_[0] == "max" and len(m_) == 3 and G.strip(m_[1]) == G.strip(o_):
+                            extra_.append(("cmp", "Lt", m_[1], m_[2]))
+                        if isinstance(m_, tuple) and m_ and m_[0] == "max" and len(m_) == 3 and G.strip(m_[2]) == G.strip(o_):
+                            extra_.append(("cmp", "Lt", m_[2], m_[1]))
+            fs_ = list(fs_) + extra_
+            if G.entails(fs_, ("cmp", "Lt", size_t, ("c", base))) is not None:
+                return True
+            return elem > 1 and G.entails(fs_, ("cmp", "Ne", ("bin", "Rem", inner, ("c", elem), "usize"), ("c", 0))) is not None
+        v_ = EX.judge(facts, allowed)
+        if v_ == "undecided":
+            ctx.note("L3x %s: a panic edge of dst_len is reached under the discriminant of a joined value only - not decided" % label)
+        elif v_ == "bad":
             bad.append("%s %s under %s" % (s.kind, s.what, [G.show(f) for f in facts][:4]))
     ctx.check(not bad, "L3x", label, "dst_len(%s) rejects only sizes below the fixed part%s: every panic edge lies under `size < %d`%s" %
               (label, " or leaving a remainder" if elem > 1 else "", base, " or `(size - %d) %% %d != 0`" % (base, elem) if elem > 1 else ""),
